@@ -241,6 +241,9 @@ func (fi *FileInfo) locateObjects() error {
 	}
 	fi.PDFStart = pos
 	fi.HeaderVersion = m[1]
+	// the byte after the version number may be the end-of-line that precedes
+	// the first marker: give it back to the marker search
+	s.pos--
 
 	section := &FileSection{}
 
@@ -544,7 +547,7 @@ var (
 	startRegexp = regexp.MustCompile(`%PDF-([12]\.[0-9])[^0-9]`)
 
 	whiteSpacePat = `[\000\011\014 ]+`
-	eolPat        = `(?:\r\n|\r|\n|^)`
+	eolPat        = `(?:\r\n|\r|\n)`
 	objectPat     = `([0-9]+)` + whiteSpacePat + `([0-9]+)` + whiteSpacePat + `obj`
 	markerPat     = eolPat + `(` + objectPat + `|xref|trailer|startxref|%%EOF)\b`
 	markerRegexp  = regexp.MustCompile(markerPat)
